@@ -18,6 +18,7 @@ import (
 	"github.com/gopher-fleece/gleece/v2/definitions"
 	"github.com/gopher-fleece/gleece/v2/graphs/symboldg"
 	"github.com/gopher-fleece/gleece/v2/infrastructure/logger"
+	"github.com/gopher-fleece/gleece/v2/infrastructure/verifhook"
 )
 
 type GleeceFlattenedMetadata struct {
@@ -175,6 +176,7 @@ func (p *GleecePipeline) getImports(controllers []definitions.ControllerMetadata
 
 	for pkgPath, importSet := range imports {
 		plainImportsMap[pkgPath] = importSet.ToSlice()
+		plainImportsMap[pkgPath] = verifhook.Permute("getImports", plainImportsMap[pkgPath])
 	}
 
 	return plainImportsMap
